@@ -278,3 +278,24 @@ func loadProgram(repo string, pkgPatterns []string) (*Program, error) {
 	})
 	return P, nil
 }
+
+// writeOverlay writes the reduced ipfs.go and a go build overlay file mapping it over repo's ipfs/ipfs.go.
+func writeOverlay(repo, dir string) error {
+	src, err := os.ReadFile(filepath.Join(repo, "ipfs", "ipfs.go"))
+	if err != nil {
+		return err
+	}
+	red, err := reduceIpfs(src)
+	if err != nil {
+		return err
+	}
+	if err := os.MkdirAll(dir, 0o755); err != nil {
+		return err
+	}
+	rp := filepath.Join(dir, "ipfs_reduced.go")
+	if err := os.WriteFile(rp, red, 0o644); err != nil {
+		return err
+	}
+	ov := fmt.Sprintf("{\"Replace\": {%q: %q}}\n", filepath.Join(repo, "ipfs", "ipfs.go"), rp)
+	return os.WriteFile(filepath.Join(dir, "overlay.json"), []byte(ov), 0o644)
+}
